@@ -6,13 +6,13 @@ package props
 // statement, compared with the trace recorded by instrumented closures, on two evaluations.
 
 import (
-	"unicode/utf8"
 	"errors"
 	"fmt"
 	"runtime"
 	"strings"
 	"sync"
 	"testing"
+	"unicode/utf8"
 
 	"github.com/zitadel/saml/pkg/provider/checker"
 	"pgregory.net/rapid"
@@ -136,6 +136,7 @@ func (*c20PtrErr) Error() string { return "logic failed (typed nil)" }
 type c20SliceErr []error
 
 func (c20SliceErr) Error() string { return "logic failed (empty list of errors)" }
+
 var errC20Callback = errors.New("failure callback aborted")
 
 // c20Eval runs CheckFailed; a panic raised by a failure callback of the chain itself is reported as failed = true (the chain did
